@@ -1,15 +1,1742 @@
-//! C08 — engine not implemented yet.
+//! C08 — a fault halts the resource and, under safe_halt, forces every safe-state output
+//! (core X4: fault-point enumeration; every case is executed on the real `trust_runtime::Runtime`).
+//!
+//! Enumerated (see `enumerate`, `runner_cases`): fault point (8 fault kinds; statement position x
+//! cycle x flavour for program faults) x fault policy x watchdog action x safe-state map x driver
+//! set, plus a slice over observers x image layout x restart mode x an unappliable (wildcard) map
+//! entry; and a small family that runs the real resource thread (`ResourceRunner::spawn`) so that
+//! the scheduler's own reaction (real watchdog overrun, scripted simulation fault) is covered.
+//!
+//! Oracle (exactly the clauses of the statement, see `check_rt` / `check_safe` / `check_runner`):
+//!   latch     after the faulting call returned, `faulted()` is true;
+//!   refusal   every later `execute_cycle()` returns `ResourceFaulted`, leaves storage and the
+//!             process images byte-identical (every statement of the skeleton bumps a counter, so
+//!             "identical dump" == "no program statement executed"), and keeps the latch; a driver
+//!             that is handed an image during a refused request must still be handed the safe values
+//!             (driver calls during refused requests are otherwise NOT forbidden: the statement
+//!             only forbids program statements);
+//!   restart   `restart()` ends the refusal; a second fault after it is treated like the first;
+//!   safe      if the policy that governs the fault kind demands it (fault policy safe_halt for
+//!             every kind but the watchdog; watchdog action halt/safe_halt for the watchdog; this
+//!             is the intersection of the two readings of the statement's parenthesis) every
+//!             configured (address,value) is readable from `io()` and from the last image EACH
+//!             driver was handed (a driver that returns Err counts as handed), at the moment the
+//!             faulting call returned;
+//!   order     no driver is handed the safe image after the fault was already published on the
+//!             runtime's own report channels (Fault runtime event / metrics fault counter; in the
+//!             runner family: resource state Faulted).
+//!
+//! Signatures: `C08/latch/<kind>`; `C08/safe-image|safe-delivery/<entry point>/none-applied|
+//! none-delivered` (nothing of the map there), `.../missing:<shapes>` (part of the map there),
+//! `.../after-failing-driver`, `.../unappliable-entry-*` (a configuration feature explains it),
+//! `.../second-fault/<entry point>`; `C08/order/...`; `C08/refusal/<clause>` and `C08/restart/...`
+//! carry no fault kind (the gate is common); the first refusal anomaly ends a case.
+//!
+//! Images are decoded with the subject's own pure `IoInterface::read` (byte order of the process
+//! image is C07's business, not C08's).  Left out of the alphabet (expected behaviour not derivable
+//! from the statement): hierarchical addresses (`%QX1.2.3`), forced I/O, `clear_fault()`, the
+//! `IoDriverErrorPolicy` mapping inside the modbus/ethercat drivers (needs a network peer; here a
+//! driver error *is* a driver that returns `Err`, i.e. policy `fault`), fault policy / watchdog
+//! action `restart` in the runner family (the thread restarts and runs on).
 
 use crate::fw::*;
 use crate::iso::WorkerFn;
-use serde_json::Value;
+use crate::par::par_map;
+use serde_json::{json, Value as J};
+use std::collections::{BTreeMap, HashSet};
+use std::sync::atomic::{AtomicU64, Ordering};
+use std::sync::{Arc, Mutex};
+use std::time::{Duration as StdDuration, Instant};
+use trust_runtime::config::IoConfig;
+use trust_runtime::debug::{DebugControl, RuntimeEvent};
+use trust_runtime::error::RuntimeError;
+use trust_runtime::harness::TestHarness;
+use trust_runtime::io::{IoAddress, IoDriver, IoDriverRegistry, IoInterface, IoSafeState};
+use trust_runtime::metrics::RuntimeMetrics;
+use trust_runtime::retain::RetainStore;
+use trust_runtime::scheduler::{Clock, ResourceControl, ResourceRunner, ResourceState, StartGate};
+use trust_runtime::simulation::{
+    SimulationConfig, SimulationController, SimulationDisturbance, SimulationDisturbanceKind,
+};
+use trust_runtime::value::{Duration, Value};
+use trust_runtime::watchdog::{FaultPolicy, WatchdogAction, WatchdogPolicy};
+use trust_runtime::{RestartMode, RetainSnapshot, Runtime};
 
-pub fn run(_ctx: &Ctx) -> EngineResult {
-    machinery("engine C08 not implemented")
+// ------------------------------------------------------------------------------------------
+// alphabet
+// ------------------------------------------------------------------------------------------
+
+struct Shape {
+    addr: &'static str,
+    /// short tag used in signatures
+    tag: &'static str,
+    /// value text as written in io.toml
+    safe_text: &'static str,
+    safe: u64,
+    /// what the program writes (and what the image is pre-loaded with)
+    opposite: u64,
+    /// which program owns the bound variable
+    prog: char,
+    decl: &'static str,
+    assign: &'static str,
 }
 
-pub fn check_case(_case: &Value) -> Vec<Violation> {
-    Vec::new()
+const SHAPES: [Shape; 6] = [
+    Shape { addr: "%QX0.0", tag: "X", safe_text: "TRUE", safe: 1, opposite: 0, prog: 'A', decl: "q0 AT %QX0.0 : BOOL;", assign: "q0 := FALSE;" },
+    Shape { addr: "%QX0.7", tag: "X", safe_text: "FALSE", safe: 0, opposite: 1, prog: 'B', decl: "q7 AT %QX0.7 : BOOL;", assign: "q7 := TRUE;" },
+    Shape { addr: "%QB1", tag: "B", safe_text: "0xA5", safe: 0xA5, opposite: 0x5A, prog: 'A', decl: "qb AT %QB1 : BYTE;", assign: "qb := BYTE#16#5A;" },
+    Shape { addr: "%QW2", tag: "W", safe_text: "0xA55A", safe: 0xA55A, opposite: 0x5AA5, prog: 'B', decl: "qw AT %QW2 : WORD;", assign: "qw := WORD#16#5AA5;" },
+    Shape { addr: "%QD4", tag: "D", safe_text: "0xDEADBEEF", safe: 0xDEAD_BEEF, opposite: 0x2152_4110, prog: 'C', decl: "qd AT %QD4 : DWORD;", assign: "qd := DWORD#16#21524110;" },
+    Shape { addr: "%QL8", tag: "L", safe_text: "0xFEDCBA9876543210", safe: 0xFEDC_BA98_7654_3210, opposite: 0x0123_4567_89AB_CDEF, prog: 'C', decl: "ql AT %QL8 : LWORD;", assign: "ql := LWORD#16#0123456789ABCDEF;" },
+];
+const FULL_MASK: u8 = 0b11_1111;
+/// an entry the config loader accepts but that can never be written (wildcard address)
+const BAD_ENTRY: (&str, &str) = ("%QX*", "TRUE");
+
+fn shape_value(i: usize, v: u64) -> Value {
+    match i {
+        0 | 1 => Value::Bool(v != 0),
+        2 => Value::Byte(v as u8),
+        3 => Value::Word(v as u16),
+        4 => Value::DWord(v as u32),
+        _ => Value::LWord(v),
+    }
+}
+
+/// statement positions of the skeleton
+const SITES: [&str; 20] = [
+    "A.first", "A.mid", "A.last", "B.first", "B.mid", "B.last", "C.first", "C.mid", "C.last",
+    "F@A", "F@B", "F@C", "FB@A", "FB@B", "FB@C", "F@FB@A", "F@FB@B", "F@FB@C", "FB@TASK",
+    "F@FB@TASK",
+];
+const FLAVORS: [&str; 3] = ["div0", "oob", "nullref"];
+const POLICIES: [&str; 3] = ["halt", "safe_halt", "restart"];
+const BAD_POS: [&str; 3] = ["none", "first", "last"];
+
+fn fault_stmt(flavor: &str) -> &'static str {
+    match flavor {
+        "div0" => "dz := 1 / zero;",
+        "oob" => "arr[big] := 1;",
+        _ => "p^ := 1;",
+    }
+}
+
+/// The skeleton: two tasks (TA prio 0 -> PA, TB prio 1 -> PB and the task-bound FB instance
+/// PA.tfb) and one un-tasked program PC; every program calls FUNCTION F and an FB1 instance, FB1
+/// calls F again (nested).  `cyc` is latched from %IW0, which the logging driver fills with its
+/// read-call count, so the program itself knows the cycle number.  Every statement bumps a counter.
+pub fn program_text(fault: Option<(&str, &str, u32)>, bind: bool) -> String {
+    let mut ins: BTreeMap<&str, String> = BTreeMap::new();
+    if let Some((site, flavor, c)) = fault {
+        let stmt = fault_stmt(flavor);
+        let (slot, guard) = match site {
+            "F@A" => ("F", format!("cyc = {c} AND caller = 1")),
+            "F@B" => ("F", format!("cyc = {c} AND caller = 2")),
+            "F@C" => ("F", format!("cyc = {c} AND caller = 3")),
+            "F@FB@A" => ("F", format!("cyc = {c} AND caller = 11")),
+            "F@FB@B" => ("F", format!("cyc = {c} AND caller = 12")),
+            "F@FB@C" => ("F", format!("cyc = {c} AND caller = 13")),
+            "F@FB@TASK" => ("F", format!("cyc = {c} AND caller = 10")),
+            "FB@A" => ("FB", format!("cyc = {c} AND caller = 1")),
+            "FB@B" => ("FB", format!("cyc = {c} AND caller = 2")),
+            "FB@C" => ("FB", format!("cyc = {c} AND caller = 3")),
+            "FB@TASK" => ("FB", format!("cyc = {c} AND caller = 0")),
+            other => (other, format!("cyc = {c}")),
+        };
+        ins.insert(slot, format!("IF {guard} THEN {stmt} END_IF;\n"));
+    }
+    let at = |slot: &str| ins.get(slot).cloned().unwrap_or_default();
+    let locals = "  dz : INT := 0;\n  arr : ARRAY[0..3] OF INT;\n  p : REF_TO INT;\n";
+    let ext = "VAR_EXTERNAL cyc : INT; zero : INT; big : INT; nf : INT; rc : INT; END_VAR\n";
+    let mut s = String::new();
+    s.push_str("FUNCTION F : INT\nVAR_INPUT caller : INT; END_VAR\n");
+    s.push_str(ext);
+    s.push_str(&format!("VAR\n{locals}END_VAR\nnf := nf + 1;\n{}F := caller + 1;\nEND_FUNCTION\n\n", at("F")));
+    s.push_str("FUNCTION_BLOCK FB1\nVAR_INPUT caller : INT; END_VAR\n");
+    s.push_str(ext);
+    s.push_str(&format!(
+        "VAR\n  calls : INT := 0;\n  r : INT := 0;\n{locals}END_VAR\ncalls := calls + 1;\nr := F(caller + 10);\n{}calls := calls + 100;\nEND_FUNCTION_BLOCK\n\n",
+        at("FB")
+    ));
+    for (p, k) in [('A', 1), ('B', 2), ('C', 3)] {
+        s.push_str(&format!("PROGRAM Prog{p}\n{ext}VAR\n  n : INT := 0;\n  r : INT := 0;\n  fb : FB1;\n"));
+        if p == 'A' {
+            s.push_str("  tfb : FB1;\n");
+        }
+        s.push_str(locals);
+        let mut assigns = String::new();
+        for sh in SHAPES.iter().filter(|sh| sh.prog == p) {
+            if bind {
+                s.push_str(&format!("  {}\n", sh.decl));
+                assigns.push_str(sh.assign);
+                assigns.push('\n');
+            }
+        }
+        s.push_str("END_VAR\n");
+        s.push_str(&at(&format!("{p}.first")));
+        s.push_str("n := n + 1;\n");
+        if p == 'A' {
+            s.push_str("rc := rc + 1;\n");
+        }
+        s.push_str(&format!("r := F({k});\nfb(caller := {k});\n"));
+        s.push_str(&at(&format!("{p}.mid")));
+        s.push_str(&assigns);
+        s.push_str("n := n + 100;\n");
+        s.push_str(&at(&format!("{p}.last")));
+        s.push_str("END_PROGRAM\n\n");
+    }
+    s.push_str(
+        "CONFIGURATION Conf\nVAR_GLOBAL\n  cyc AT %IW0 : INT;\n  zero : INT := 0;\n  big : INT := 9;\n  nf : INT := 0;\n  trig : BOOL := FALSE;\nEND_VAR\nVAR_GLOBAL RETAIN\n  rc : INT := 0;\nEND_VAR\n\
+         TASK TA (INTERVAL := T#10ms, PRIORITY := 0);\nTASK TB (INTERVAL := T#10ms, PRIORITY := 1);\nTASK TE (SINGLE := trig, PRIORITY := 2);\n\
+         PROGRAM PA WITH TA : ProgA (tfb WITH TB);\nPROGRAM PB WITH TB : ProgB;\nPROGRAM PC : ProgC;\nEND_CONFIGURATION\n",
+    );
+    s
+}
+
+// ------------------------------------------------------------------------------------------
+// case description
+// ------------------------------------------------------------------------------------------
+
+#[derive(Clone, Debug, PartialEq, Eq, Hash)]
+enum Kind {
+    /// runtime error raised by a statement at `site`
+    Prog { site: u8, flavor: u8 },
+    /// driver d (1-based) returns Err from read_inputs
+    IoRead(u8),
+    /// driver d returns Err from write_outputs (normal publish)
+    IoWrite(u8),
+    /// `Runtime::watchdog_timeout()` after `cycle` good cycles
+    Watchdog,
+    /// `Runtime::simulation_fault()` after `cycle` good cycles
+    Sim,
+    /// evaluator deadline already expired when the cycle starts (first statement faults)
+    Deadline,
+    /// task collection fails (SINGLE variable of a task holds a non-BOOL)
+    Sched,
+    /// retain store fails while saving at the end of the cycle (after the output publish)
+    Retain,
+}
+
+impl Kind {
+    fn class(&self) -> &'static str {
+        match self {
+            Kind::Prog { .. } => "program",
+            Kind::IoRead(_) => "io-read",
+            Kind::IoWrite(_) => "io-write",
+            Kind::Watchdog => "watchdog",
+            Kind::Sim => "simulation",
+            Kind::Deadline => "deadline",
+            Kind::Sched => "task-collect",
+            Kind::Retain => "retain-save",
+        }
+    }
+    /// public entry point through which the fault is raised (all faults of one entry share the
+    /// decision + `apply_fault` path, so the safe-state and order signatures are per entry)
+    fn entry(&self) -> &'static str {
+        match self {
+            Kind::Watchdog => "watchdog_timeout",
+            Kind::Sim => "simulation_fault",
+            _ => "execute_cycle",
+        }
+    }
+    /// variant name of the RuntimeError the planned fault must surface as (placement check)
+    fn expected_error(&self) -> &'static str {
+        match self {
+            Kind::Prog { flavor: 0, .. } => "DivisionByZero",
+            Kind::Prog { flavor: 1, .. } => "IndexOutOfBounds",
+            Kind::Prog { .. } => "NullReference",
+            Kind::IoRead(_) | Kind::IoWrite(_) => "IoDriver",
+            Kind::Watchdog => "WatchdogTimeout",
+            Kind::Sim => "SimulationFault",
+            Kind::Deadline => "ExecutionTimeout",
+            Kind::Sched => "InvalidTaskSingle",
+            Kind::Retain => "RetainStore",
+        }
+    }
+    /// fault raised by a direct API call after `cycle` good cycles (not inside cycle `cycle`)
+    fn injected_call(&self) -> bool {
+        matches!(self, Kind::Watchdog | Kind::Sim)
+    }
+}
+
+#[derive(Clone, Debug, PartialEq, Eq, Hash)]
+struct Case {
+    kind: Kind,
+    cycle: u32,
+    fp: u8,
+    wa: u8,
+    mask: u8,
+    /// 0 none, 1 unappliable entry first, 2 unappliable entry last
+    bad: u8,
+    drivers: u8,
+    /// 0 = nobody, d = driver d's write_outputs fails from the safe-state delivery on
+    fail_safe: u8,
+    obs: bool,
+    bind: bool,
+    cold: bool,
+    refused: u8,
+    /// 0 = all drivers are logging drivers; d = driver d is the shipped `ModbusTcpDriver`
+    /// (on_error = fault) pointed at a closed loopback port, so every exchange fails
+    real: u8,
+}
+
+impl Case {
+    fn to_json(&self) -> J {
+        let mut o = json!({
+            "family": "rt",
+            "kind": self.kind.class(),
+            "cycle": self.cycle,
+            "fault_policy": POLICIES[self.fp as usize],
+            "watchdog_action": POLICIES[self.wa as usize],
+            "safe_state": SHAPES.iter().enumerate().filter(|(i, _)| self.mask & (1 << i) != 0).map(|(_, s)| json!([s.addr, s.safe_text])).collect::<Vec<_>>(),
+            "safe_mask": self.mask,
+            "unappliable_entry": BAD_POS[self.bad as usize],
+            "drivers": self.drivers,
+            "driver_failing_in_safe_delivery": self.fail_safe,
+            "observers": self.obs,
+            "outputs_bound": self.bind,
+            "restart": if self.cold { "cold" } else { "warm" },
+            "refused_cycles": self.refused,
+        });
+        match &self.kind {
+            Kind::Prog { site, flavor } => {
+                o["site"] = json!(SITES[*site as usize]);
+                o["flavor"] = json!(FLAVORS[*flavor as usize]);
+            }
+            Kind::IoRead(d) | Kind::IoWrite(d) => o["io_driver"] = json!(d),
+            _ => {}
+        }
+        if self.real != 0 {
+            o["real_modbus_driver"] = json!(self.real);
+        }
+        o
+    }
+
+    fn from_json(j: &J) -> Option<Case> {
+        let pol = |k: &str| POLICIES.iter().position(|p| Some(*p) == j[k].as_str()).map(|p| p as u8);
+        let kind = match j["kind"].as_str()? {
+            "program" => Kind::Prog {
+                site: SITES.iter().position(|s| Some(*s) == j["site"].as_str())? as u8,
+                flavor: FLAVORS.iter().position(|s| Some(*s) == j["flavor"].as_str())? as u8,
+            },
+            "io-read" => Kind::IoRead(j["io_driver"].as_u64()? as u8),
+            "io-write" => Kind::IoWrite(j["io_driver"].as_u64()? as u8),
+            "watchdog" => Kind::Watchdog,
+            "simulation" => Kind::Sim,
+            "deadline" => Kind::Deadline,
+            "task-collect" => Kind::Sched,
+            "retain-save" => Kind::Retain,
+            _ => return None,
+        };
+        Some(Case {
+            kind,
+            cycle: j["cycle"].as_u64()? as u32,
+            fp: pol("fault_policy")?,
+            wa: pol("watchdog_action")?,
+            mask: j["safe_mask"].as_u64()? as u8,
+            bad: BAD_POS.iter().position(|s| Some(*s) == j["unappliable_entry"].as_str())? as u8,
+            drivers: j["drivers"].as_u64()? as u8,
+            fail_safe: j["driver_failing_in_safe_delivery"].as_u64()? as u8,
+            obs: j["observers"].as_bool()?,
+            bind: j["outputs_bound"].as_bool()?,
+            cold: j["restart"].as_str()? == "cold",
+            refused: j["refused_cycles"].as_u64()? as u8,
+            real: j["real_modbus_driver"].as_u64().unwrap_or(0) as u8,
+        })
+    }
+
+    /// Reading R1 of the statement: the policy that governs this fault kind decides.  (Reading R2,
+    /// the literal disjunction "fault policy safe_halt OR watchdog action halt/safe_halt", demands
+    /// the safe state in a superset of these cases; a violation is reported only where both
+    /// readings demand it, i.e. exactly here.)
+    fn safe_demanded(&self) -> bool {
+        match self.kind {
+            Kind::Watchdog => self.wa != 2,
+            _ => self.fp == 1,
+        }
+    }
+
+    /// 1-based index of the write_outputs call of driver `d` that is the safe-state delivery
+    fn safe_write_index(&self, d: u8) -> u32 {
+        match self.kind {
+            Kind::IoWrite(f) => {
+                if d <= f {
+                    self.cycle + 1
+                } else {
+                    self.cycle
+                }
+            }
+            Kind::Retain | Kind::Watchdog | Kind::Sim => self.cycle + 1,
+            _ => self.cycle,
+        }
+    }
+}
+
+// ------------------------------------------------------------------------------------------
+// instrumentation handed to the subject through its public extension points
+// ------------------------------------------------------------------------------------------
+
+#[derive(Clone, Debug)]
+enum Ev {
+    Read { d: u8 },
+    Write { d: u8, n: u32, image: Vec<u8>, fault_reported: bool, state: Option<ResourceState> },
+}
+
+#[derive(Default)]
+struct Shared {
+    log: Mutex<Vec<Ev>>,
+    fault_events: AtomicU64,
+    /// metrics fault counter at the last restart (reports of earlier, restarted faults don't count)
+    metrics_base: AtomicU64,
+    debug: Mutex<Option<DebugControl>>,
+    metrics: Mutex<Option<Arc<Mutex<RuntimeMetrics>>>>,
+    ctl: Mutex<Option<ResourceControl<StepClock>>>,
+}
+
+impl Shared {
+    /// pulls the runtime's published events; true if the fault has already been reported on one
+    /// of the runtime's own report channels
+    fn fault_reported(&self) -> bool {
+        if let Some(dbg) = self.debug.lock().unwrap().as_ref() {
+            for e in dbg.drain_runtime_events() {
+                if matches!(e, RuntimeEvent::Fault { .. }) {
+                    self.fault_events.fetch_add(1, Ordering::SeqCst);
+                }
+            }
+        }
+        let mut reported = self.fault_events.load(Ordering::SeqCst) > 0;
+        if let Some(m) = self.metrics.lock().unwrap().as_ref() {
+            if let Ok(g) = m.lock() {
+                reported |= g.faults > self.metrics_base.load(Ordering::SeqCst);
+            }
+        }
+        reported
+    }
+
+    /// called after a restart: the reports of the previous (now cleared) fault are history
+    fn rebase(&self) {
+        let _ = self.fault_reported();
+        self.fault_events.store(0, Ordering::SeqCst);
+        if let Some(m) = self.metrics.lock().unwrap().as_ref() {
+            if let Ok(g) = m.lock() {
+                self.metrics_base.store(g.faults, Ordering::SeqCst);
+            }
+        }
+    }
+}
+
+struct LogDriver {
+    d: u8,
+    reads: u32,
+    writes: u32,
+    read_fail_at: Option<u32>,
+    write_fail_at: Option<u32>,
+    write_fail_from: Option<u32>,
+    shared: Arc<Shared>,
+}
+
+impl IoDriver for LogDriver {
+    fn read_inputs(&mut self, inputs: &mut [u8]) -> Result<(), RuntimeError> {
+        self.reads += 1;
+        self.shared.log.lock().unwrap().push(Ev::Read { d: self.d });
+        if self.read_fail_at == Some(self.reads) {
+            return Err(RuntimeError::IoDriver("injected read error".into()));
+        }
+        // cycle number on %IW0
+        let b = (self.reads as u16).to_le_bytes();
+        for (i, x) in b.iter().enumerate() {
+            if let Some(slot) = inputs.get_mut(i) {
+                *slot = *x;
+            }
+        }
+        Ok(())
+    }
+
+    fn write_outputs(&mut self, outputs: &[u8]) -> Result<(), RuntimeError> {
+        self.writes += 1;
+        let fault_reported = self.shared.fault_reported();
+        let state = self.shared.ctl.lock().unwrap().as_ref().map(|c| c.state());
+        self.shared.log.lock().unwrap().push(Ev::Write {
+            d: self.d,
+            n: self.writes,
+            image: outputs.to_vec(),
+            fault_reported,
+            state,
+        });
+        if self.write_fail_at == Some(self.writes) || self.write_fail_from.is_some_and(|k| self.writes >= k) {
+            return Err(RuntimeError::IoDriver("injected write error".into()));
+        }
+        Ok(())
+    }
+}
+
+struct FailingStore {
+    calls: Mutex<u32>,
+    fail_at: u32,
+}
+
+impl RetainStore for FailingStore {
+    fn load(&self) -> Result<RetainSnapshot, RuntimeError> {
+        Ok(RetainSnapshot::default())
+    }
+    fn store(&self, _snapshot: &RetainSnapshot) -> Result<(), RuntimeError> {
+        let mut c = self.calls.lock().unwrap();
+        *c += 1;
+        if *c == self.fail_at {
+            return Err(RuntimeError::RetainStore("injected store error".into()));
+        }
+        Ok(())
+    }
+}
+
+/// clock of the runner family: every `now()` is one 10 ms step later (as in the repository's own
+/// reliability test), `sleep_until` returns at once
+#[derive(Clone, Debug)]
+pub struct StepClock {
+    t: Arc<Mutex<i64>>,
+}
+
+impl Clock for StepClock {
+    fn now(&self) -> Duration {
+        let mut g = self.t.lock().unwrap();
+        let now = *g;
+        *g = now + 10_000_000;
+        Duration::from_nanos(now)
+    }
+    fn sleep_until(&self, deadline: Duration) {
+        let mut g = self.t.lock().unwrap();
+        if *g < deadline.as_nanos() {
+            *g = deadline.as_nanos();
+        }
+    }
+}
+
+// ------------------------------------------------------------------------------------------
+// configuration through the public configuration path
+// ------------------------------------------------------------------------------------------
+
+static FILE_SEQ: AtomicU64 = AtomicU64::new(0);
+
+/// Builds the safe-state map the way a deployment does: io.toml text -> `IoConfig::load`.
+fn load_safe_state(entries: &[(&str, &str)]) -> Result<IoSafeState, String> {
+    let mut text = String::from("[io]\ndriver = \"simulated\"\nparams = {}\n\n");
+    for (a, v) in entries {
+        text.push_str(&format!("[[io.safe_state]]\naddress = \"{a}\"\nvalue = \"{v}\"\n\n"));
+    }
+    let path = std::env::temp_dir().join(format!(
+        "tv-c08-{}-{}.toml",
+        std::process::id(),
+        FILE_SEQ.fetch_add(1, Ordering::SeqCst)
+    ));
+    std::fs::write(&path, &text).map_err(|e| format!("cannot write {path:?}: {e}"))?;
+    let r = IoConfig::load(&path);
+    let _ = std::fs::remove_file(&path);
+    r.map(|c| c.safe_state).map_err(|e| format!("io.toml rejected: {e}"))
+}
+
+/// The six loaded (address,value) entries plus the unappliable one (None if the loader rejects it).
+struct SafeEntries {
+    good: Vec<(IoAddress, Value)>,
+    bad: Option<(IoAddress, Value)>,
+}
+
+fn safe_entries() -> Result<SafeEntries, String> {
+    let all: Vec<(&str, &str)> = SHAPES.iter().map(|s| (s.addr, s.safe_text)).collect();
+    let st = load_safe_state(&all)?;
+    if st.outputs.len() != SHAPES.len() {
+        return Err(format!("config loader returned {} safe-state entries for {}", st.outputs.len(), SHAPES.len()));
+    }
+    let bad = load_safe_state(&[BAD_ENTRY]).ok().and_then(|s| s.outputs.into_iter().next());
+    Ok(SafeEntries { good: st.outputs, bad })
+}
+
+fn safe_state_for(entries: &SafeEntries, mask: u8, bad: u8) -> IoSafeState {
+    let mut st = IoSafeState::default();
+    if bad == 1 {
+        if let Some(b) = &entries.bad {
+            st.outputs.push(b.clone());
+        }
+    }
+    for (i, e) in entries.good.iter().enumerate() {
+        if mask & (1 << i) != 0 {
+            st.outputs.push(e.clone());
+        }
+    }
+    if bad == 2 {
+        if let Some(b) = &entries.bad {
+            st.outputs.push(b.clone());
+        }
+    }
+    st
+}
+
+// ------------------------------------------------------------------------------------------
+// observation helpers
+// ------------------------------------------------------------------------------------------
+
+/// Canonical dump: all globals, all instances (by id), retain area, frame count, the three images.
+fn dump(rt: &Runtime) -> Vec<String> {
+    let st = rt.storage();
+    let mut out = Vec::new();
+    for (k, v) in st.globals() {
+        out.push(format!("global {k} = {v:?}"));
+    }
+    let mut ids: Vec<_> = st.instances().keys().copied().collect();
+    ids.sort_by_key(|i| i.0);
+    for id in ids {
+        let inst = st.get_instance(id).unwrap();
+        for (k, v) in &inst.variables {
+            out.push(format!("instance {}:{}.{k} = {v:?}", id.0, inst.type_name));
+        }
+    }
+    for (k, v) in st.retain() {
+        out.push(format!("retain {k} = {v:?}"));
+    }
+    out.push(format!("frames {}", st.frames().len()));
+    out.push(format!("image I {:?}", rt.io().inputs()));
+    out.push(format!("image Q {:?}", rt.io().outputs()));
+    out.push(format!("image M {:?}", rt.io().memory()));
+    out
+}
+
+fn first_diff(a: &[String], b: &[String]) -> String {
+    for (x, y) in a.iter().zip(b.iter()) {
+        if x != y {
+            return format!("`{x}` became `{y}`");
+        }
+    }
+    format!("dump length {} became {}", a.len(), b.len())
+}
+
+/// value at `addr` in a raw output image, decoded by the subject's own pure accessor
+fn read_image(image: &[u8], addr: &IoAddress) -> Option<Value> {
+    let mut io = IoInterface::new();
+    io.resize(0, image.len(), 0);
+    io.outputs_mut().copy_from_slice(image);
+    io.read(addr).ok()
+}
+
+fn err_class(e: &RuntimeError) -> String {
+    format!("{e:?}").chars().take_while(|ch| ch.is_alphanumeric()).collect()
+}
+
+fn norm_msg(m: &str) -> String {
+    let s: String = m.chars().map(|c| if c.is_ascii_digit() { '#' } else { c }).collect();
+    s.chars().take(60).collect()
+}
+
+#[derive(Default)]
+struct Outcome {
+    /// (signature, what)
+    bad: Vec<(String, String)>,
+    /// the planned fault did occur where planned
+    placed: bool,
+    /// why not (machinery)
+    unplaced_why: String,
+    demanded: bool,
+    safe_checks: u64,
+    refused_checks: u64,
+    fault_error: String,
+    /// compact description of what happened (for the distinct-outcome counter)
+    outcome_key: String,
+    fault_dump_hash: u64,
+}
+
+fn fnv(s: &str, mut h: u64) -> u64 {
+    for b in s.bytes() {
+        h ^= b as u64;
+        h = h.wrapping_mul(0x100000001b3);
+    }
+    h
+}
+
+fn parse_policies(c: &Case) -> Result<(FaultPolicy, WatchdogAction), String> {
+    let fp = FaultPolicy::parse(POLICIES[c.fp as usize]).map_err(|e| e.to_string())?;
+    let wa = WatchdogAction::parse(POLICIES[c.wa as usize]).map_err(|e| e.to_string())?;
+    Ok((fp, wa))
+}
+
+/// The shipped Modbus/TCP driver pointed at a loopback port nobody listens on: every exchange
+/// fails (connection refused), which the driver maps to Err (on_error = fault) or swallows
+/// (warn / ignore).  Built the way the launcher does it: io.toml -> IoConfig -> IoDriverRegistry.
+fn modbus_driver(on_error: &str) -> Result<Box<dyn IoDriver>, String> {
+    let text = format!(
+        "[io]\n\n[[io.drivers]]\nname = \"modbus-tcp\"\nparams = {{ address = \"127.0.0.1:1\", timeout_ms = 50, on_error = \"{on_error}\" }}\n"
+    );
+    let path = std::env::temp_dir().join(format!(
+        "tv-c08-{}-{}.toml",
+        std::process::id(),
+        FILE_SEQ.fetch_add(1, Ordering::SeqCst)
+    ));
+    std::fs::write(&path, &text).map_err(|e| format!("cannot write {path:?}: {e}"))?;
+    let cfg = IoConfig::load(&path);
+    let _ = std::fs::remove_file(&path);
+    let cfg = cfg.map_err(|e| format!("io.toml with a modbus-tcp driver rejected: {e}"))?;
+    let d = cfg.drivers.first().ok_or("io.toml loaded without drivers")?;
+    let spec = IoDriverRegistry::default_registry()
+        .build(d.name.as_str(), &d.params)
+        .map_err(|e| format!("registry cannot build modbus-tcp: {e}"))?
+        .ok_or("registry built no driver")?;
+    Ok(spec.driver)
+}
+
+fn make_drivers(c: &Case, shared: &Arc<Shared>) -> Vec<LogDriver> {
+    (1..=c.drivers)
+        .filter(|d| *d != c.real)
+        .map(|d| LogDriver {
+            d,
+            reads: 0,
+            writes: 0,
+            read_fail_at: (c.kind == Kind::IoRead(d)).then_some(c.cycle),
+            write_fail_at: (c.kind == Kind::IoWrite(d)).then_some(c.cycle),
+            write_fail_from: (c.fail_safe == d).then(|| c.safe_write_index(d)),
+            shared: shared.clone(),
+        })
+        .collect()
+}
+
+/// Safe-state clauses on the driver log + (optionally) the runtime image.
+/// `io`: the runtime's interface (None in the runner family, where the runtime lives in the thread).
+///
+/// Signatures name the cause, not the case: `<entry point>/none-applied` when no configured entry
+/// is in the image, `missing:<shapes>` when some are and some are not; the delivery clause is
+/// evaluated only on the entries the runtime image does hold (an entry missing from the image is
+/// already reported by the image clause), and a configuration feature that explains the failure
+/// (an earlier driver returned Err, an unappliable entry) replaces the fault kind.
+///
+/// `second`: the fault is the second one of the case (after a restart).  The images then still
+/// carry safe values of the first fault wherever the restarted program did not overwrite them, so
+/// "which shapes are missing" is not a cause feature there; the check is only run when the first
+/// fault passed, and its signatures say just `second-fault/<entry point>`.
+fn check_safe(c: &Case, entries: &SafeEntries, io: Option<&IoInterface>, log: &[Ev], family: &str, second: bool, out: &mut Outcome) {
+    let wanted: Vec<usize> = (0..SHAPES.len()).filter(|i| c.mask & (1 << i) != 0).collect();
+    if wanted.is_empty() {
+        return;
+    }
+    let kind = c.kind.class();
+    let entry = c.kind.entry();
+    // nothing there: the entry point is the discriminating feature; some there, some not: the shapes are
+    let tag = |missing: &[usize], of: usize, none: &str| -> String {
+        if second {
+            return format!("second-fault/{entry}");
+        }
+        if missing.len() == of {
+            return format!("{entry}/{none}");
+        }
+        let mut tags: Vec<&str> = missing.iter().map(|i| SHAPES[*i].tag).collect();
+        tags.dedup();
+        format!("missing:{}", tags.join(""))
+    };
+    // image clause
+    let mut in_image: Vec<usize> = wanted.clone();
+    if let Some(io) = io {
+        let mut missing = Vec::new();
+        for &i in &wanted {
+            let (addr, val) = &entries.good[i];
+            out.safe_checks += 1;
+            if io.read(addr).ok().as_ref() != Some(val) {
+                missing.push(i);
+            }
+        }
+        in_image.retain(|i| !missing.contains(i));
+        if !missing.is_empty() {
+            let sig = if c.bad != 0 {
+                "C08/safe-image/unappliable-entry-blocks-others".to_string()
+            } else {
+                format!("C08/safe-image/{}", tag(&missing, wanted.len(), "none-applied"))
+            };
+            let i = missing[0];
+            out.bad.push((
+                sig,
+                format!(
+                    "{family}: after the {kind} fault was reported the output image does not hold the configured safe value at {} (expected {:?}, image reads {:?}); {} of {} configured addresses missing",
+                    SHAPES[i].addr,
+                    entries.good[i].1,
+                    io.read(&entries.good[i].0).ok(),
+                    missing.len(),
+                    wanted.len()
+                ),
+            ));
+        }
+    }
+    if in_image.is_empty() {
+        return;
+    }
+    // delivery clause, per driver, on the entries the image holds
+    for d in (1..=c.drivers).filter(|d| *d != c.real) {
+        let last = log.iter().rev().find_map(|e| match e {
+            Ev::Write { d: dd, image, fault_reported, state, n } if *dd == d => Some((image, *fault_reported, *state, *n)),
+            _ => None,
+        });
+        let mut missing = Vec::new();
+        for &i in &in_image {
+            let (addr, val) = &entries.good[i];
+            out.safe_checks += 1;
+            let got = last.as_ref().and_then(|(image, ..)| read_image(image, addr));
+            if got.as_ref() != Some(val) {
+                missing.push(i);
+            }
+        }
+        if !missing.is_empty() {
+            let sig = if c.bad != 0 {
+                "C08/safe-delivery/unappliable-entry-blocks-delivery".to_string()
+            } else if c.fail_safe != 0 && c.fail_safe < d {
+                "C08/safe-delivery/after-failing-driver".to_string()
+            } else {
+                format!("C08/safe-delivery/{}", tag(&missing, in_image.len(), "none-delivered"))
+            };
+            let i = missing[0];
+            let handed = match &last {
+                None => "driver was never handed an output image".to_string(),
+                Some((image, _, _, n)) => format!("the last image it had been handed (its write #{n}) reads {:?} there", read_image(image, &entries.good[i].0)),
+            };
+            out.bad.push((
+                sig,
+                format!(
+                    "{family}: when the {kind} fault was reported, driver {d} of {} had not received the safe value {:?} at {}: {handed}; {} of {} addresses missing{}",
+                    c.drivers,
+                    entries.good[i].1,
+                    SHAPES[i].addr,
+                    missing.len(),
+                    in_image.len(),
+                    if c.fail_safe != 0 && c.fail_safe < d { format!("; driver {} returned Err during the safe-state delivery", c.fail_safe) } else { String::new() }
+                ),
+            ));
+        } else if let Some((_, reported, state, _)) = last {
+            // order clause: the safe image must reach the driver before the fault is reported
+            if reported {
+                out.bad.push((
+                    format!("C08/order/reported-before-delivery/{entry}"),
+                    format!("{family}: driver {d} was handed the safe image only after the runtime had already published the fault (Fault runtime event / metrics fault counter)"),
+                ));
+            }
+            if state == Some(ResourceState::Faulted) {
+                out.bad.push((
+                    format!("C08/order/state-faulted-before-delivery/{kind}"),
+                    format!("{family}: the resource state was already Faulted when driver {d} was handed the safe image"),
+                ));
+            }
+        }
+    }
+}
+
+// ------------------------------------------------------------------------------------------
+// family "rt": Runtime driven synchronously
+// ------------------------------------------------------------------------------------------
+
+fn build_runtime(c: &Case, text: Option<&str>) -> Result<Runtime, String> {
+    let generated;
+    let src = match text {
+        Some(t) => t,
+        None => {
+            let fault = match &c.kind {
+                Kind::Prog { site, flavor } => Some((SITES[*site as usize], FLAVORS[*flavor as usize], c.cycle)),
+                _ => None,
+            };
+            generated = program_text(fault, c.bind);
+            &generated
+        }
+    };
+    let h = catch(|| TestHarness::from_source(src)).map_err(|m| format!("compiler panicked: {m}"))?;
+    h.map(|h| h.into_runtime()).map_err(|e| format!("skeleton rejected by the compiler: {e}"))
+}
+
+/// The outputs carry the opposite of every safe value before the fault, so that no configured
+/// value is in the image by coincidence.  With unbound outputs only %QX0.7 (whose safe value is
+/// FALSE) is pre-loaded: the image stays 1 byte long and the safe state has to grow it.
+fn preload_opposite(rt: &mut Runtime, bind: bool) -> Result<(), String> {
+    for (i, sh) in SHAPES.iter().enumerate() {
+        if bind || i == 1 {
+            let addr = IoAddress::parse(sh.addr).map_err(|e| e.to_string())?;
+            rt.io_mut().write(&addr, shape_value(i, sh.opposite)).map_err(|e| e.to_string())?;
+        }
+    }
+    Ok(())
+}
+
+fn configure(rt: &mut Runtime, c: &Case, entries: &SafeEntries, shared: &Arc<Shared>, wd_enabled: bool, wd_timeout: Duration) -> Result<(), String> {
+    let (fp, wa) = parse_policies(c)?;
+    rt.set_fault_policy(fp);
+    rt.set_watchdog_policy(WatchdogPolicy { enabled: wd_enabled, timeout: wd_timeout, action: wa });
+    rt.set_io_safe_state(safe_state_for(entries, c.mask, c.bad));
+    // the launcher sizes the images from the bindings: 2 input bytes (%IW0), 16 output bytes
+    rt.io_mut().resize(2, if c.bind { 16 } else { 0 }, 0);
+    preload_opposite(rt, c.bind)?;
+    let mut logging = make_drivers(c, shared).into_iter();
+    for d in 1..=c.drivers {
+        if d == c.real {
+            rt.add_io_driver("modbus-tcp", modbus_driver("fault")?);
+        } else if let Some(drv) = logging.next() {
+            rt.add_io_driver(format!("log{}", drv.d), Box::new(drv));
+        }
+    }
+    if c.obs {
+        let dbg = rt.enable_debug();
+        *shared.debug.lock().unwrap() = Some(dbg);
+        let m = Arc::new(Mutex::new(RuntimeMetrics::new()));
+        rt.set_metrics_sink(m.clone());
+        *shared.metrics.lock().unwrap() = Some(m);
+    }
+    if c.kind == Kind::Retain {
+        rt.set_retain_store(
+            Some(Box::new(FailingStore { calls: Mutex::new(0), fail_at: c.cycle })),
+            Some(Duration::from_millis(0)),
+        );
+    }
+    Ok(())
+}
+
+fn check_rt(c: &Case, entries: &SafeEntries, text: Option<&str>) -> Result<Outcome, String> {
+    let mut out = Outcome::default();
+    let kind = c.kind.class();
+    let shared = Arc::new(Shared::default());
+    let mut rt = build_runtime(c, text)?;
+    configure(&mut rt, c, entries, &shared, true, Duration::from_millis(1000))?;
+    out.demanded = c.safe_demanded();
+
+    // ---- run up to the fault
+    let good_cycles = if c.kind.injected_call() { c.cycle } else { c.cycle.saturating_sub(1) };
+    let step = |rt: &mut Runtime| -> Result<Result<(), RuntimeError>, String> {
+        rt.advance_time(Duration::from_millis(10));
+        catch(|| rt.execute_cycle())
+    };
+    for i in 1..=good_cycles {
+        match step(&mut rt) {
+            Ok(Ok(())) => {}
+            Ok(Err(e)) => {
+                out.unplaced_why = format!("cycle {i} faulted ({e}) before the planned fault point");
+                return Ok(out);
+            }
+            Err(m) => {
+                out.bad.push((format!("C08/panic/execute_cycle/{}", norm_msg(&m)), format!("execute_cycle panicked in fault-free cycle {i}: {m}")));
+                out.placed = true;
+                return Ok(out);
+            }
+        }
+    }
+    let fault: Result<RuntimeError, String> = match c.kind {
+        Kind::Watchdog => catch(|| rt.watchdog_timeout()),
+        Kind::Sim => catch(|| rt.simulation_fault("injected")),
+        _ => {
+            if c.kind == Kind::Deadline {
+                rt.set_execution_deadline(Some(Instant::now()));
+            }
+            if c.kind == Kind::Sched {
+                rt.storage_mut().set_global("trig", Value::Int(1));
+            }
+            match step(&mut rt) {
+                Ok(Ok(())) => {
+                    out.unplaced_why = format!("cycle {} completed without the planned {kind} fault", c.cycle);
+                    return Ok(out);
+                }
+                Ok(Err(e)) => Ok(e),
+                Err(m) => Err(m),
+            }
+        }
+    };
+    rt.set_execution_deadline(None);
+    let err = match fault {
+        Ok(e) => e,
+        Err(m) => {
+            out.placed = true;
+            out.bad.push((format!("C08/panic/fault/{kind}/{}", norm_msg(&m)), format!("the faulting call panicked instead of reporting the {kind} fault: {m}")));
+            return Ok(out);
+        }
+    };
+    if err == RuntimeError::ResourceFaulted {
+        out.unplaced_why = "the planned fault point was reached with the resource already faulted".into();
+        return Ok(out);
+    }
+    out.fault_error = err_class(&err);
+    if out.fault_error != c.kind.expected_error() {
+        out.unplaced_why = format!("the planned {kind} fault surfaced as {err:?}, expected {}", c.kind.expected_error());
+        return Ok(out);
+    }
+    {
+        // the fault must have surfaced in the planned cycle: driver 1 has latched inputs that often
+        let reads = shared.log.lock().unwrap().iter().filter(|e| matches!(e, Ev::Read { d: 1 })).count() as u32;
+        let want = c.cycle;
+        if reads != want && c.real == 0 {
+            out.unplaced_why = format!("driver 1 latched inputs {reads} times before the fault, planned {want}");
+            return Ok(out);
+        }
+    }
+    out.placed = true;
+
+    // ---- the fault has been reported (the call returned): latch + safe state
+    if !rt.faulted() {
+        out.bad.push((
+            format!("C08/latch/{kind}"),
+            format!("the faulting call returned {err:?} ({kind} fault, cycle {}) but faulted() is false", c.cycle),
+        ));
+    }
+    let log_at_report: Vec<Ev> = shared.log.lock().unwrap().clone();
+    let _ = shared.fault_reported();
+    if out.demanded {
+        check_safe(c, entries, Some(rt.io()), &log_at_report, "runtime", false, &mut out);
+    }
+    let d0 = dump(&rt);
+    out.fault_dump_hash = d0.iter().fold(0xcbf29ce484222325, |h, l| fnv(l, h));
+    let delivered = (1..=c.drivers)
+        .filter(|d| log_at_report.iter().any(|e| matches!(e, Ev::Write { d: dd, n, .. } if dd == d && *n >= c.safe_write_index(*d))))
+        .count();
+    out.outcome_key = format!("{kind}/{}/demanded={}/delivered={delivered}of{}", out.fault_error, out.demanded, c.drivers);
+
+    // ---- every later cycle request is refused.  The refusal gate does not depend on the fault
+    // kind, so these signatures carry none; the first anomaly of a case ends the case (everything
+    // after it would be a consequence).
+    if !rt.faulted() {
+        return Ok(out);
+    }
+    for k in 1..=c.refused {
+        rt.advance_time(Duration::from_millis(10));
+        let before = dump(&rt);
+        let log_before = shared.log.lock().unwrap().len();
+        let r = catch(|| rt.execute_cycle());
+        out.refused_checks += 1;
+        match r {
+            Err(m) => {
+                out.bad.push((format!("C08/panic/refused-cycle/{}", norm_msg(&m)), format!("execute_cycle panicked on the faulted resource: {m}")));
+                return Ok(out);
+            }
+            Ok(Err(RuntimeError::ResourceFaulted)) => {}
+            Ok(other) => {
+                let got = if other.is_ok() { "accepted" } else { "other-error" };
+                out.bad.push((
+                    format!("C08/refusal/result/{got}"),
+                    format!("cycle request #{k} after the {kind} fault returned {other:?} instead of Err(ResourceFaulted)"),
+                ));
+                return Ok(out);
+            }
+        }
+        let after = dump(&rt);
+        if after != before {
+            let what = first_diff(&before, &after);
+            let part = if what.starts_with("`image") { "image" } else { "storage" };
+            out.bad.push((
+                format!("C08/refusal/state-changed/{part}"),
+                format!("refused cycle request #{k} after the {kind} fault changed the resource state: {what}"),
+            ));
+            return Ok(out);
+        }
+        if !rt.faulted() {
+            out.bad.push((
+                "C08/refusal/latch-cleared".to_string(),
+                format!("faulted() became false after refused cycle request #{k} (after a {kind} fault) without a restart"),
+            ));
+            return Ok(out);
+        }
+        if out.demanded {
+            // a driver that is handed an image during a refused request must still see the safe values
+            let log = shared.log.lock().unwrap().clone();
+            if log.len() > log_before {
+                let mut tmp = Outcome::default();
+                check_safe(c, entries, None, &log, "runtime", false, &mut tmp);
+                let lost: Vec<_> = tmp.bad.into_iter().filter(|(sig, _)| sig.starts_with("C08/safe-delivery") && !out.bad.iter().any(|(s, _)| s == sig)).collect();
+                if let Some((_, what)) = lost.into_iter().next() {
+                    out.bad.push(("C08/safe-lost-after-refusal".to_string(), format!("a driver was handed an image without the safe values during refused request #{k}: {what}")));
+                    return Ok(out);
+                }
+            }
+        }
+    }
+
+    // ---- until a restart
+    let mode = if c.cold { RestartMode::Cold } else { RestartMode::Warm };
+    let mode_s = if c.cold { "cold" } else { "warm" };
+    match catch(|| rt.restart(mode)) {
+        Err(m) => out.bad.push((format!("C08/panic/restart/{}", norm_msg(&m)), format!("restart({mode_s}) panicked: {m}"))),
+        Ok(Err(_)) => {} // restart itself failing is C09's business
+        Ok(Ok(())) => {
+            shared.rebase();
+            if rt.faulted() {
+                out.bad.push((format!("C08/restart/still-faulted/{mode_s}"), format!("faulted() is still true after restart({mode_s})")));
+            } else {
+                rt.advance_time(Duration::from_millis(10));
+                match catch(|| rt.execute_cycle()) {
+                    Ok(Err(RuntimeError::ResourceFaulted)) => out.bad.push((
+                        format!("C08/restart/still-refused/{mode_s}"),
+                        format!("the first cycle after restart({mode_s}) is still refused with ResourceFaulted"),
+                    )),
+                    Err(m) => out.bad.push((format!("C08/panic/cycle-after-restart/{}", norm_msg(&m)), format!("execute_cycle panicked after restart({mode_s}): {m}"))),
+                    Ok(first) => {
+                        // ---- fault sequence: a second fault after the restart gets the same treatment.
+                        // Either the first cycle after the restart faulted by itself (a driver that keeps
+                        // failing), or a simulation fault is injected now.
+                        let (second, c2) = match first {
+                            Err(e) => {
+                                let k2 = if c.fail_safe != 0 { Kind::IoWrite(c.fail_safe) } else { c.kind.clone() };
+                                (Ok(e), Case { kind: k2, ..c.clone() })
+                            }
+                            Ok(()) => {
+                                preload_opposite(&mut rt, c.bind)?;
+                                (catch(|| rt.simulation_fault("second")), Case { kind: Kind::Sim, ..c.clone() })
+                            }
+                        };
+                        let kind2 = c2.kind.class();
+                        match second {
+                            Err(m) => out.bad.push((format!("C08/panic/fault/{kind2}/{}", norm_msg(&m)), format!("second fault after restart({mode_s}) panicked: {m}"))),
+                            Ok(e2) => {
+                                if !rt.faulted() {
+                                    out.bad.push((format!("C08/latch/{kind2}"), format!("second fault after restart({mode_s}): the call returned {e2:?} but faulted() is false")));
+                                }
+                                let first_clean = out.demanded && !out.bad.iter().any(|(s, _)| s.starts_with("C08/safe-") || s.starts_with("C08/order/"));
+                                if c2.safe_demanded() && first_clean {
+                                    let log = shared.log.lock().unwrap().clone();
+                                    let mut tmp = Outcome::default();
+                                    check_safe(&c2, entries, Some(rt.io()), &log, "runtime, second fault after a restart", true, &mut tmp);
+                                    out.safe_checks += tmp.safe_checks;
+                                    for (sig, what) in tmp.bad {
+                                        if !out.bad.iter().any(|(s, _)| *s == sig) {
+                                            out.bad.push((sig, what));
+                                        }
+                                    }
+                                }
+                                rt.advance_time(Duration::from_millis(10));
+                                let before = dump(&rt);
+                                out.refused_checks += 1;
+                                match catch(|| rt.execute_cycle()) {
+                                    Ok(Err(RuntimeError::ResourceFaulted)) if dump(&rt) == before && rt.faulted() => {}
+                                    other => out.bad.push((
+                                        "C08/refusal/after-second-fault".to_string(),
+                                        format!("cycle request after the second fault (after restart({mode_s})) was not refused cleanly: {other:?}, faulted()={}", rt.faulted()),
+                                    )),
+                                }
+                            }
+                        }
+                    }
+                }
+            }
+        }
+    }
+    Ok(out)
+}
+
+// ------------------------------------------------------------------------------------------
+// family "runner": the resource thread (scheduler.rs) reacting to faults and to the watchdog
+// ------------------------------------------------------------------------------------------
+
+#[derive(Clone, Debug, PartialEq, Eq, Hash)]
+enum RKind {
+    Prog,
+    IoRead,
+    IoWrite,
+    /// real watchdog: enabled, timeout 1 ns, so the first cycle overruns
+    WdOverrun,
+    /// scripted simulation disturbance `Fault` (SimulationController::apply_pre_cycle)
+    SimCtl,
+}
+
+impl RKind {
+    fn name(&self) -> &'static str {
+        match self {
+            RKind::Prog => "program",
+            RKind::IoRead => "io-read",
+            RKind::IoWrite => "io-write",
+            RKind::WdOverrun => "watchdog",
+            RKind::SimCtl => "simulation",
+        }
+    }
+    fn parse(s: &str) -> Option<RKind> {
+        [RKind::Prog, RKind::IoRead, RKind::IoWrite, RKind::WdOverrun, RKind::SimCtl].into_iter().find(|k| k.name() == s)
+    }
+}
+
+fn runner_case_json(k: &RKind, c: &Case) -> J {
+    let mut j = c.to_json();
+    j["family"] = json!("runner");
+    j["kind"] = json!(k.name());
+    j
+}
+
+/// `c.kind` is the rt-level equivalent used for plan arithmetic (safe write index, demanded).
+fn runner_plan(k: &RKind, cycle: u32, fp: u8, wa: u8, drivers: u8, fail_safe: u8) -> Case {
+    let kind = match k {
+        RKind::Prog => Kind::Prog { site: 1, flavor: 0 },
+        RKind::IoRead => Kind::IoRead(1),
+        RKind::IoWrite => Kind::IoWrite(1),
+        // after cycle 1 has published
+        RKind::WdOverrun => Kind::Watchdog,
+        // pre-cycle of iteration `cycle`: cycle-1 publishes so far
+        RKind::SimCtl => Kind::Sim,
+    };
+    let cycle = if *k == RKind::SimCtl { cycle - 1 } else { cycle };
+    Case { kind, cycle, fp, wa, mask: FULL_MASK, bad: 0, drivers, fail_safe, obs: false, bind: true, cold: false, refused: 0, real: 0 }
+}
+
+fn check_runner(k: &RKind, c: &Case, entries: &SafeEntries) -> Result<Outcome, String> {
+    let mut out = Outcome::default();
+    let kind = k.name();
+    let shared = Arc::new(Shared::default());
+    let mut rt = build_runtime(c, None)?;
+    let wd = *k == RKind::WdOverrun;
+    configure(&mut rt, c, entries, &shared, wd, if wd { Duration::from_nanos(1) } else { Duration::from_millis(1000) })?;
+    out.demanded = c.safe_demanded();
+    let clock = StepClock { t: Arc::new(Mutex::new(10_000_000)) };
+    let gate = Arc::new(StartGate::new());
+    let mut runner = ResourceRunner::new(rt, clock, Duration::from_millis(10)).with_start_gate(gate.clone());
+    if *k == RKind::SimCtl {
+        let cfg = SimulationConfig {
+            enabled: true,
+            seed: 0,
+            time_scale: 1,
+            couplings: Vec::new(),
+            // iteration i runs at 10 ms * i; due in the pre-cycle of iteration c.cycle + 1
+            disturbances: vec![SimulationDisturbance {
+                at: Duration::from_millis(10 * (c.cycle as i64 + 1) - 5),
+                kind: SimulationDisturbanceKind::Fault { message: "injected".into() },
+            }],
+        };
+        runner = runner.with_simulation(SimulationController::new(cfg));
+    }
+    let mut handle = runner.spawn("c08-runner").map_err(|e| format!("cannot spawn resource thread: {e}"))?;
+    *shared.ctl.lock().unwrap() = Some(handle.control());
+    gate.open();
+    // Wait for the state Faulted.  The verdict "never faulted" is progress-based, not time-based:
+    // it is given only once the thread has latched inputs three more times than the plan allows.
+    let t0 = Instant::now();
+    let mut reached = false;
+    let mut stalled = false;
+    loop {
+        let st = handle.state();
+        if st == ResourceState::Faulted {
+            reached = true;
+            break;
+        }
+        let reads = shared.log.lock().unwrap().iter().filter(|e| matches!(e, Ev::Read { d: 1 })).count() as u32;
+        if reads >= c.cycle + 3 || st == ResourceState::Stopped {
+            break;
+        }
+        if t0.elapsed() > StdDuration::from_secs(120) {
+            stalled = true;
+            break;
+        }
+        std::thread::yield_now();
+    }
+    let log_at_report: Vec<Ev> = shared.log.lock().unwrap().clone();
+    let last_error = handle.last_error();
+    handle.stop();
+    let _ = handle.join();
+    *shared.ctl.lock().unwrap() = None;
+    if stalled {
+        return Err(format!("runner case {}: resource thread made no progress for 120 s", runner_case_json(k, c)));
+    }
+    if !reached {
+        // the planned fault never surfaced as state Faulted
+        out.placed = true;
+        out.bad.push((
+            format!("C08/runner/not-faulted/{kind}"),
+            format!("resource thread: the resource ran 3 cycles past the planned {kind} fault (planned after {} input latches; fault policy {}, watchdog action {}) and its state never became Faulted", c.cycle, POLICIES[c.fp as usize], POLICIES[c.wa as usize]),
+        ));
+        return Ok(out);
+    }
+    out.fault_error = last_error.as_ref().map(err_class).unwrap_or_default();
+    {
+        let reads = log_at_report.iter().filter(|e| matches!(e, Ev::Read { d: 1 })).count() as u32;
+        let want = c.cycle;
+        if reads != want || (last_error.is_some() && out.fault_error != c.kind.expected_error()) {
+            out.unplaced_why = format!("runner: fault surfaced as {last_error:?} after {reads} input latches, planned {} after {want}", c.kind.expected_error());
+            return Ok(out);
+        }
+    }
+    out.placed = true;
+    if last_error.is_none() {
+        out.bad.push((format!("C08/runner/no-error-reported/{kind}"), "resource state is Faulted but last_error() is None".to_string()));
+    }
+    if out.demanded {
+        check_safe(c, entries, None, &log_at_report, "resource thread", false, &mut out);
+    }
+    // no cycle may start once the state Faulted was observable
+    let log_end = shared.log.lock().unwrap().clone();
+    let later_reads = log_end[log_at_report.len()..].iter().filter(|e| matches!(e, Ev::Read { .. })).count();
+    out.refused_checks += 1;
+    if later_reads > 0 {
+        out.bad.push((
+            format!("C08/runner/cycle-after-fault/{kind}"),
+            format!("resource thread latched inputs {later_reads} more time(s) after its state had become Faulted"),
+        ));
+    }
+    let delivered = (1..=c.drivers)
+        .filter(|d| log_at_report.iter().any(|e| matches!(e, Ev::Write { d: dd, n, .. } if dd == d && *n >= c.safe_write_index(*d))))
+        .count();
+    out.outcome_key = format!("runner/{kind}/{}/demanded={}/delivered={delivered}of{}", out.fault_error, out.demanded, c.drivers);
+    Ok(out)
+}
+
+// ------------------------------------------------------------------------------------------
+// replay
+// ------------------------------------------------------------------------------------------
+
+fn to_violations(out: Outcome, case: &J) -> Vec<Violation> {
+    out.bad
+        .into_iter()
+        .map(|(signature, what)| Violation { signature, what, case: case.clone() })
+        .collect()
+}
+
+pub fn check_case(case: &J) -> Vec<Violation> {
+    let Ok(entries) = safe_entries() else { return Vec::new() };
+    match case["family"].as_str() {
+        Some("rt") => {
+            let Some(c) = Case::from_json(case) else { return Vec::new() };
+            match check_rt(&c, &entries, case["program"].as_str()) {
+                Ok(out) => to_violations(out, case),
+                Err(_) => Vec::new(),
+            }
+        }
+        Some("runner") => {
+            // the plan (rt form of the kind, cycle, drivers ...) is stored in the same fields
+            let Some(k) = case["kind"].as_str().and_then(RKind::parse) else { return Vec::new() };
+            let Some(c) = Case::from_json(case) else { return Vec::new() };
+            match check_runner(&k, &c, &entries) {
+                Ok(out) => to_violations(out, case),
+                Err(_) => Vec::new(),
+            }
+        }
+        Some("config") => check_config(&entries).into_iter().collect(),
+        _ => Vec::new(),
+    }
+}
+
+/// The values the config loader produced must be the ones written in io.toml (otherwise
+/// "configured safe value" would be ill-defined for everything below).
+fn check_config(entries: &SafeEntries) -> Vec<Violation> {
+    let mut v = Vec::new();
+    for (i, sh) in SHAPES.iter().enumerate() {
+        let want = shape_value(i, sh.safe);
+        let addr_ok = IoAddress::parse(sh.addr).ok().as_ref() == Some(&entries.good[i].0);
+        if entries.good[i].1 != want || !addr_ok {
+            v.push(Violation {
+                signature: format!("C08/config/safe-state-entry/{}", sh.tag),
+                what: format!("io.toml safe_state entry {} = {} is loaded as {:?} (expected {:?})", sh.addr, sh.safe_text, entries.good[i], want),
+                case: json!({"family": "config"}),
+            });
+        }
+    }
+    v
+}
+
+// ------------------------------------------------------------------------------------------
+// enumeration
+// ------------------------------------------------------------------------------------------
+
+fn fault_points(all_sites: bool) -> Vec<(Kind, u32)> {
+    let mut v = Vec::new();
+    // simplest first: injected calls, then I/O, then program sites
+    for c in 0..=3 {
+        v.push((Kind::Watchdog, c));
+        v.push((Kind::Sim, c));
+    }
+    for c in 1..=3 {
+        for d in 1..=2 {
+            v.push((Kind::IoRead(d), c));
+            v.push((Kind::IoWrite(d), c));
+        }
+        v.push((Kind::Deadline, c));
+        v.push((Kind::Sched, c));
+        v.push((Kind::Retain, c));
+    }
+    if all_sites {
+        for c in 1..=3 {
+            for site in 0..SITES.len() as u8 {
+                for flavor in 0..FLAVORS.len() as u8 {
+                    v.push((Kind::Prog { site, flavor }, c));
+                }
+            }
+        }
+    } else {
+        // representative subset used by the slices that sweep the configuration dimensions:
+        // first statement of the first task, nested call in the last task, un-tasked program
+        v.retain(|(k, c)| match k {
+            Kind::Watchdog => *c == 2,
+            Kind::Sim => *c == 0,
+            Kind::IoRead(d) => *c == 2 && *d == 1,
+            Kind::IoWrite(d) => *c == 1 && *d == 2,
+            _ => *c == 2,
+        });
+        v.push((Kind::Prog { site: 0, flavor: 0 }, 1));
+        v.push((Kind::Prog { site: 16, flavor: 1 }, 2));
+        v.push((Kind::Prog { site: 8, flavor: 2 }, 3));
+    }
+    v
+}
+
+const DRIVER_SETS: [(u8, u8); 5] = [(1, 0), (2, 0), (2, 1), (2, 2), (1, 1)];
+
+fn enumerate(tier: Tier, entries: &SafeEntries) -> Vec<Case> {
+    let refused = tier.pick(2u8, 3u8);
+    let mut seen: HashSet<Case> = HashSet::new();
+    let mut cases = Vec::new();
+    let mut push = |c: Case, cases: &mut Vec<Case>| {
+        if let Kind::IoRead(d) | Kind::IoWrite(d) = c.kind {
+            if d > c.drivers {
+                return;
+            }
+        }
+        if seen.insert(c.clone()) {
+            cases.push(c);
+        }
+    };
+    let all_masks: Vec<u8> = {
+        // simplest first: by population count, then value
+        let mut m: Vec<u8> = (0..=FULL_MASK).collect();
+        m.sort_by_key(|x| (x.count_ones(), *x));
+        m
+    };
+    let bads: &[u8] = if entries.bad.is_some() { &[0, 1, 2] } else { &[0] };
+
+    // slice A: every fault point x every policy pair x every driver set, full map
+    for (kind, cycle) in fault_points(true) {
+        for fp in 0..3u8 {
+            for wa in 0..3u8 {
+                for &(drivers, fail_safe) in &DRIVER_SETS {
+                    push(Case { kind: kind.clone(), cycle, fp, wa, mask: FULL_MASK, bad: 0, drivers, fail_safe, obs: true, bind: true, cold: false, refused, real: 0 }, &mut cases);
+                }
+            }
+        }
+    }
+    // slice B: observers x image layout x restart mode x unappliable entry
+    // (quick: representative fault points; thorough: every fault point)
+    let points = tier.pick(fault_points(false), fault_points(true));
+    for (kind, cycle) in &points {
+        for fp in 0..3u8 {
+            for wa in 0..3u8 {
+                for &(drivers, fail_safe) in &[(2u8, 0u8), (2, 1)] {
+                    for obs in [true, false] {
+                        for bind in [true, false] {
+                            for cold in [false, true] {
+                                for &bad in bads {
+                                    push(Case { kind: kind.clone(), cycle: *cycle, fp, wa, mask: FULL_MASK, bad, drivers, fail_safe, obs, bind, cold, refused, real: 0 }, &mut cases);
+                                }
+                            }
+                        }
+                    }
+                }
+            }
+        }
+    }
+    // slice C: every safe-state map (simplest first) x policy pairs x driver sets
+    // (quick: representative fault points, 2 driver sets; thorough: every fault point, 3 driver sets)
+    let sets: &[(u8, u8)] = tier.pick(&DRIVER_SETS[1..3], &DRIVER_SETS[0..3]);
+    for &mask in &all_masks {
+        for (kind, cycle) in &points {
+            for fp in 0..3u8 {
+                for wa in 0..3u8 {
+                    for &(drivers, fail_safe) in sets {
+                        push(Case { kind: kind.clone(), cycle: *cycle, fp, wa, mask, bad: 0, drivers, fail_safe, obs: true, bind: true, cold: false, refused, real: 0 }, &mut cases);
+                    }
+                }
+            }
+        }
+    }
+    cases
+}
+
+fn runner_cases() -> Vec<(RKind, Case)> {
+    let mut v = Vec::new();
+    for k in [RKind::WdOverrun, RKind::SimCtl, RKind::IoRead, RKind::IoWrite, RKind::Prog] {
+        let cycles: &[u32] = if k == RKind::WdOverrun { &[1] } else { &[1, 2, 3] };
+        for &cycle in cycles {
+            // fault policy restart / watchdog action restart make the thread restart and run on for
+            // ever; nothing in the statement applies to that, so they are not enumerated here
+            for fp in 0..2u8 {
+                for wa in 0..2u8 {
+                    for &(drivers, fail_safe) in &[(1u8, 0u8), (2, 0), (2, 1), (2, 2)] {
+                        v.push((k.clone(), runner_plan(&k, cycle, fp, wa, drivers, fail_safe)));
+                    }
+                }
+            }
+        }
+    }
+    v
+}
+
+/// Cases in which one of two drivers is the shipped Modbus/TCP driver with nobody answering.
+/// on_error = fault: the first exchange faults the cycle ("I/O driver error with policy fault") and
+/// the whole oracle applies (`check_rt`); warn / ignore: the driver swallows the error, so no
+/// fault is expected and nothing is demanded (outcome recorded only).
+fn modbus_cases(refused: u8) -> Vec<(Case, &'static str)> {
+    let mut v = Vec::new();
+    for real in [2u8, 1u8] {
+        for on_error in ["fault", "warn", "ignore"] {
+            for fp in 0..3u8 {
+                v.push((
+                    Case { kind: Kind::IoRead(real), cycle: 1, fp, wa: 1, mask: FULL_MASK, bad: 0, drivers: 2, fail_safe: real, obs: true, bind: true, cold: false, refused, real },
+                    on_error,
+                ));
+            }
+        }
+    }
+    v
+}
+
+/// warn / ignore: two cycles with the dead Modbus peer; returns the outcome key
+fn modbus_tolerant(c: &Case, on_error: &str, entries: &SafeEntries) -> Result<String, String> {
+    let shared = Arc::new(Shared::default());
+    let plan = Case { real: 0, fail_safe: 0, kind: Kind::Sim, drivers: 1, ..c.clone() };
+    let mut rt = build_runtime(&plan, None)?;
+    let (fp, wa) = parse_policies(c)?;
+    rt.set_fault_policy(fp);
+    rt.set_watchdog_policy(WatchdogPolicy { enabled: false, timeout: Duration::from_millis(1000), action: wa });
+    rt.set_io_safe_state(safe_state_for(entries, c.mask, 0));
+    rt.io_mut().resize(2, 16, 0);
+    let mut logging = make_drivers(&plan, &shared).into_iter();
+    for d in 1..=2u8 {
+        if d == c.real {
+            rt.add_io_driver("modbus-tcp", modbus_driver(on_error)?);
+        } else if let Some(drv) = logging.next() {
+            rt.add_io_driver("log", Box::new(drv));
+        }
+    }
+    let mut results = Vec::new();
+    for _ in 0..2 {
+        rt.advance_time(Duration::from_millis(10));
+        let r = catch(|| rt.execute_cycle()).map_err(|m| format!("execute_cycle panicked with a tolerant modbus driver: {m}"))?;
+        results.push(match r {
+            Ok(()) => "ok".to_string(),
+            Err(e) => err_class(&e),
+        });
+    }
+    Ok(format!("modbus/on_error={on_error}/{}/faulted={}", results.join(","), rt.faulted()))
+}
+
+pub fn run(ctx: &Ctx) -> EngineResult {
+    quiet_panics();
+    let mut rep = Report::new("fault_enumeration");
+    let deadline = Instant::now() + StdDuration::from_secs(ctx.tier.pick(36, 840));
+    let entries = safe_entries().map_err(Machinery)?;
+    rep.violations_from(check_config(&entries));
+    if entries.bad.is_none() {
+        rep.set("unappliable_entry_family", "dropped: the config loader rejects a wildcard safe-state address");
+    }
+
+    // skeleton sanity: the fault-free skeleton runs 4 cycles without a fault and executes every POU
+    {
+        let c = Case { kind: Kind::Sim, cycle: 3, fp: 0, wa: 0, mask: 0, bad: 0, drivers: 1, fail_safe: 0, obs: false, bind: true, cold: false, refused: 0, real: 0 };
+        let shared = Arc::new(Shared::default());
+        let mut rt = build_runtime(&c, None).map_err(Machinery)?;
+        configure(&mut rt, &c, &entries, &shared, false, Duration::from_millis(1000)).map_err(Machinery)?;
+        for i in 1..=4 {
+            rt.advance_time(Duration::from_millis(10));
+            if let Err(e) = rt.execute_cycle() {
+                return machinery(format!("fault-free skeleton faults in cycle {i}: {e}"));
+            }
+        }
+        let d = dump(&rt).join("\n");
+        for needle in ["global cyc = Int(4)", "global nf = "] {
+            if !d.contains(needle) {
+                return machinery(format!("skeleton sanity: `{needle}` not found in dump:\n{d}"));
+            }
+        }
+        // every program (n) and every FB instance incl. the task-bound one (calls) ran 4 times: 4 * 101
+        if d.matches("(404)").count() != 7 {
+            return machinery(format!("skeleton sanity: expected 7 execution counters at 404:\n{d}"));
+        }
+    }
+
+    let cases = enumerate(ctx.tier, &entries);
+    let chunk = 32usize;
+    let chunks: Vec<usize> = (0..cases.len().div_ceil(chunk)).collect();
+    eprintln!("[C08] {} runtime cases, {} chunks", cases.len(), chunks.len());
+    struct Acc {
+        viol: Vec<Violation>,
+        evaluated: u64,
+        unplaced: Vec<String>,
+        machinery: Vec<String>,
+        demanded_nonempty: u64,
+        safe_checks: u64,
+        refused_checks: u64,
+        outcomes: HashSet<String>,
+        fault_states: HashSet<u64>,
+        per_kind: BTreeMap<&'static str, u64>,
+    }
+    let res = par_map(&chunks, ctx.threads, 8 << 20, Some(deadline), |_, &ci| {
+        let mut acc = Acc {
+            viol: Vec::new(),
+            evaluated: 0,
+            unplaced: Vec::new(),
+            machinery: Vec::new(),
+            demanded_nonempty: 0,
+            safe_checks: 0,
+            refused_checks: 0,
+            outcomes: HashSet::new(),
+            fault_states: HashSet::new(),
+            per_kind: BTreeMap::new(),
+        };
+        for c in &cases[ci * chunk..((ci + 1) * chunk).min(cases.len())] {
+            match check_rt(c, &entries, None) {
+                Err(m) => acc.machinery.push(m),
+                Ok(out) => {
+                    acc.evaluated += 1;
+                    if !out.placed {
+                        acc.unplaced.push(format!("{}: {}", c.to_json(), out.unplaced_why));
+                        continue;
+                    }
+                    *acc.per_kind.entry(c.kind.class()).or_insert(0) += 1;
+                    if out.demanded && c.mask != 0 {
+                        acc.demanded_nonempty += 1;
+                    }
+                    acc.safe_checks += out.safe_checks;
+                    acc.refused_checks += out.refused_checks;
+                    acc.outcomes.insert(out.outcome_key.clone());
+                    acc.fault_states.insert(out.fault_dump_hash);
+                    if !out.bad.is_empty() {
+                        let mut j = c.to_json();
+                        let fault = match &c.kind {
+                            Kind::Prog { site, flavor } => Some((SITES[*site as usize], FLAVORS[*flavor as usize], c.cycle)),
+                            _ => None,
+                        };
+                        j["program"] = json!(program_text(fault, c.bind));
+                        acc.viol.extend(to_violations(out, &j));
+                    }
+                }
+            }
+        }
+        acc
+    });
+    let mut exhaustive = true;
+    let mut evaluated = 0u64;
+    let mut unplaced: Vec<String> = Vec::new();
+    let mut mach: Vec<String> = Vec::new();
+    let mut nontrivial = 0u64;
+    let mut safe_checks = 0u64;
+    let mut refused_checks = 0u64;
+    let mut outcomes: HashSet<String> = HashSet::new();
+    let mut fault_states: HashSet<u64> = HashSet::new();
+    let mut per_kind: BTreeMap<&'static str, u64> = BTreeMap::new();
+    let mut skipped_chunks = 0usize;
+    for r in res {
+        match r {
+            None => {
+                exhaustive = false;
+                skipped_chunks += 1;
+            }
+            Some(acc) => {
+                rep.violations_from(acc.viol);
+                evaluated += acc.evaluated;
+                unplaced.extend(acc.unplaced);
+                mach.extend(acc.machinery);
+                nontrivial += acc.demanded_nonempty;
+                safe_checks += acc.safe_checks;
+                refused_checks += acc.refused_checks;
+                outcomes.extend(acc.outcomes);
+                fault_states.extend(acc.fault_states);
+                for (k, n) in acc.per_kind {
+                    *per_kind.entry(k).or_insert(0) += n;
+                }
+            }
+        }
+    }
+    if !exhaustive {
+        rep.cap(format!("runtime family: wall cap reached, {skipped_chunks} of {} chunks of {chunk} cases not executed (cases are ordered slice A, B, C; C sweeps the safe-state maps simplest first)", chunks.len()));
+    }
+    if let Some(m) = mach.first() {
+        return machinery(format!("{} cases could not be built: {m}", mach.len()));
+    }
+    if let Some(u) = unplaced.first() {
+        return machinery(format!("{} cases in which the planned fault did not occur where planned (the harness cannot place the fault); first: {u}", unplaced.len()));
+    }
+    eprintln!("[C08] runtime family done at {:.1}s ({evaluated} cases)", ctx.elapsed());
+
+    // ---- runner family (sequential per thread; a handful of cases)
+    let rcases = runner_cases();
+    let rres = par_map(&rcases, ctx.threads.min(8), 8 << 20, None, |_, (k, c)| (check_runner(k, c, &entries), runner_case_json(k, c)));
+    let mut runner_evaluated = 0u64;
+    let mut runner_demanded = 0u64;
+    for r in rres {
+        let Some((r, j)) = r else { return machinery("runner case not executed") };
+        match r {
+            Err(m) => return machinery(format!("runner case could not be built: {m}")),
+            Ok(out) => {
+                if !out.placed {
+                    return machinery(format!("runner case {j}: planned fault not placed: {}", out.unplaced_why));
+                }
+                runner_evaluated += 1;
+                if out.demanded {
+                    runner_demanded += 1;
+                }
+                safe_checks += out.safe_checks;
+                refused_checks += out.refused_checks;
+                outcomes.insert(out.outcome_key.clone());
+                rep.violations_from(to_violations(out, &j));
+            }
+        }
+    }
+    eprintln!("[C08] runner family done at {:.1}s ({runner_evaluated} cases)", ctx.elapsed());
+
+    // ---- the shipped Modbus/TCP driver with a dead peer as one of two drivers
+    let mcases = modbus_cases(ctx.tier.pick(2, 3));
+    let mres = par_map(&mcases, ctx.threads, 8 << 20, None, |_, (c, on_error)| {
+        if *on_error == "fault" {
+            check_rt(c, &entries, None).map(|o| (Some(o), String::new()))
+        } else {
+            modbus_tolerant(c, on_error, &entries).map(|k| (None, k))
+        }
+    });
+    let mut modbus_evaluated = 0u64;
+    for (r, (c, on_error)) in mres.into_iter().zip(mcases.iter()) {
+        let Some(r) = r else { return machinery("modbus case not executed") };
+        match r {
+            Err(m) => return machinery(format!("modbus case could not be run: {m}")),
+            Ok((None, key)) => {
+                modbus_evaluated += 1;
+                outcomes.insert(key);
+            }
+            Ok((Some(out), _)) => {
+                if !out.placed {
+                    return machinery(format!("modbus case {} (on_error={on_error}): planned fault not placed: {}", c.to_json(), out.unplaced_why));
+                }
+                modbus_evaluated += 1;
+                if out.demanded {
+                    nontrivial += 1;
+                }
+                safe_checks += out.safe_checks;
+                refused_checks += out.refused_checks;
+                outcomes.insert(format!("modbus/on_error=fault/{}", out.outcome_key));
+                let mut j = c.to_json();
+                j["program"] = json!(program_text(None, c.bind));
+                rep.violations_from(to_violations(out, &j));
+            }
+        }
+    }
+    eprintln!("[C08] modbus family done at {:.1}s ({modbus_evaluated} cases)", ctx.elapsed());
+
+    if evaluated == 0 || nontrivial < 2 || safe_checks == 0 || refused_checks == 0 {
+        return machinery(format!("vacuous exploration: evaluated={evaluated} nontrivial={nontrivial} safe_checks={safe_checks} refused_checks={refused_checks}"));
+    }
+    if exhaustive && per_kind.len() < 8 {
+        return machinery(format!("only {} of 8 fault kinds were placed: {per_kind:?}", per_kind.len()));
+    }
+    if exhaustive && fault_states.len() < SITES.len() {
+        return machinery(format!("only {} distinct resource states at fault time for {} statement positions", fault_states.len(), SITES.len()));
+    }
+
+    rep.set("evaluations", evaluated + runner_evaluated + modbus_evaluated);
+    rep.set("modbus_cases", modbus_evaluated);
+    rep.set("distinct_nontrivial", nontrivial + runner_demanded);
+    rep.set("rule", "runtime family: union of three fully enumerated products: A = every fault point (8 fault kinds; program faults = 20 statement positions x {div-by-zero, index out of bounds, NULL deref} x cycle 1..3; driver/deadline/task-collect/retain faults x cycle 1..3; watchdog_timeout()/simulation_fault() after 0..3 cycles) x fault policy x watchdog action x 5 driver sets (1|2 logging drivers, optionally one failing from the safe-state delivery on), full safe-state map; B = fault points x policies x {2 drivers, 2 drivers with #1 failing} x observers on/off x outputs bound/unbound x warm/cold restart x unappliable wildcard entry none/first/last; C = fault points x policies x all 64 subsets of the 6 address shapes x driver sets (quick: B and C on 11 representative fault points; thorough: all 209). Every case builds a fresh Runtime from generated ST, runs it to the fault, through 2 (quick) / 3 (thorough) refused cycle requests, a restart, one more cycle and a second fault. runner family: ResourceRunner::spawn on a step clock for 5 fault kinds incl. the real watchdog and a scripted simulation fault. modbus family: the shipped ModbusTcpDriver (built from io.toml through the driver registry, peer = closed loopback port) as driver 1 or 2 of 2 x on_error fault|warn|ignore x fault policy. Cases are distinct tuples by construction (de-duplicated by hash); distinct_nontrivial = cases in which the planned fault occurred where planned, the governing policy demands the safe state and the map is non-empty (each compares >= 1 (address,value) in io() and in each driver's last image).");
+    rep.set("runtime_cases", evaluated);
+    rep.set("runner_cases", runner_evaluated);
+    rep.set("cases_per_fault_kind", json!(per_kind));
+    rep.set("statement_positions", SITES.len() as u64);
+    rep.set("safe_value_comparisons", safe_checks);
+    rep.set("refused_cycle_requests_checked", refused_checks);
+    rep.set("distinct_outcomes", outcomes.len() as u64);
+    rep.set("distinct_resource_states_at_fault", fault_states.len() as u64);
+    rep.set("refused_requests_per_case", ctx.tier.pick(2u64, 3u64));
+    rep.set("exhaustive", exhaustive);
+    let mut o: Vec<&String> = outcomes.iter().collect();
+    o.sort();
+    rep.set("outcomes", json!(o));
+    for idx in [0usize, cases.len() / 3, cases.len() / 2, cases.len() - 1] {
+        rep.sample(cases[idx].to_json());
+    }
+    rep.sample(runner_case_json(&rcases[0].0, &rcases[0].1));
+    rep.assume("a driver error is a driver whose read_inputs/write_outputs returns Err (on_error = fault); the on_error mapping is exercised only for the Modbus/TCP driver with a refused connection (warn/ignore: outcome recorded, nothing demanded)");
+    rep.assume("safe state is demanded only where both readings of the statement agree: fault policy safe_halt for non-watchdog faults, watchdog action halt/safe_halt for watchdog timeouts");
+    rep.assume("images are decoded with IoInterface::read (byte order is property C07's subject)");
+    rep.assume("runner family leaves out fault policy / watchdog action `restart` (the thread restarts and runs on; no clause of the statement applies)");
+    Ok(rep)
 }
 
 pub fn workers() -> Vec<(&'static str, WorkerFn)> {
